@@ -244,3 +244,172 @@ def integral_case(rng, tname, topo, geom, poly=True):
     if finish is None:
         finish = lambda h: dom.integral(h * function.J(geom), degree=degree)
     return tname + ':' + kind, g, finish, pool
+
+
+# ------------------------------------------------------------------ arguments with many axes
+
+def nd_pool(rng):
+    """a pool in which p, q have 3 or 4 axes (mostly pairwise different lengths, so that any confusion of axis order /
+    strides is observable), r, s the trailing axes of p, u, v its last axis; names as in POOL so that FRESH applies"""
+    while True:
+        nd = rng.choice([3, 3, 4])
+        if rng.random() < .75:
+            S = tuple(rng.sample([1, 2, 3, 4], nd))
+        else:
+            S = tuple(rng.choice([1, 2, 3]) for _ in range(nd))
+        if 4 <= numpy.prod(S) <= 24:
+            break
+    return {'p': (S, float), 'q': (S, float), 'r': (S[1:], float), 's': (S[1:], float), 'u': (S[-1:], float), 'v': (S[-1:], float),
+            'w': ((), float), 'z': ((), float)}, S
+
+
+def nd_array(rng, gen, S, maxdim=2, depth=None):
+    """polynomial array over gen.pool built on the many-axes arguments: an elementwise expression of shape S (or a leading /
+    trailing part of it), reduced to at most `maxdim` axes by sums, contractions with constants, indexing and diagonals"""
+    shape = tuple(S) if rng.random() < .8 else tuple(S[1:])
+    a = argument(rng.choice(['p', 'q']), gen.pool) if shape == tuple(S) and rng.random() < .5 else None
+    b = gen.array(shape, rng.randint(0, 2) if depth is None else depth)
+    if a is None:
+        a = b
+    else:
+        a = rng.choice([lambda: a * b, lambda: a + b, lambda: a * b + a, lambda: a * gen.const(shape) + b])()
+    target = rng.randint(0, maxdim)
+    while a.ndim > target:
+        op = rng.choice(['sum', 'sum', 'index', 'dot', 'matvec', 'transpose-sum'])
+        ax = rng.randrange(a.ndim)
+        n = int(a.shape[ax])
+        gen.hit('nd-' + op)
+        if op == 'sum':
+            a = numpy.sum(a, ax)
+        elif op == 'index':
+            a = a[(slice(None),) * ax + (rng.randrange(n),)]
+        elif op == 'dot':
+            cvec = numpy.random.default_rng(rng.getrandbits(32)).integers(-2, 3, (n,)) / 2.
+            a = numpy.sum(a * cvec[(slice(None),) + (None,) * (a.ndim - ax - 1)], ax)
+        elif op == 'matvec':
+            vecs = [n_ for n_ in gen.names if gen.pool[n_][0] == (int(a.shape[-1]),)]
+            a = a @ (argument(rng.choice(vecs), gen.pool) if vecs else gen.const((int(a.shape[-1]),)))
+        else:
+            perm = list(range(a.ndim)); rng.shuffle(perm)
+            a = numpy.sum(numpy.transpose(a, perm), -1)
+    if rng.random() < .4:
+        a = a + rng.choice([1., -2., .5])
+    return a
+
+
+# ------------------------------------------------------------------ nested replacements in / around integrals
+
+class Nest:
+    """one node of a nested construction: an integrand over its own arguments u<i> (field coefficients, shape (n,)) and
+    w<i> (scalar) and the shared, never replaced arguments y (field) and c (scalar); `children` maps an own argument to
+    (node, 'inside' | 'outside'): the argument is replaced by the child's array inside the integrand resp. around the integral"""
+
+    def __init__(self, ident, g, finish, kind, own):
+        self.ident = ident; self.g = g; self.finish = finish; self.kind = kind; self.own = own; self.children = {}
+
+    def component(self):
+        return self.finish(self.g)
+
+    def nodes_postorder(self):
+        for ch, where in self.children.values():
+            yield from ch.nodes_postorder()
+        yield self
+
+    def depth(self):
+        return 1 + max([ch.depth() for ch, _ in self.children.values()], default=0)
+
+    def inside_chain(self):
+        """largest number of integrals nested through replacements inside integrands (= depth of nested element loops)"""
+        return 1 + max([ch.inside_chain() if where == 'inside' and ch.kind != 'plain' else 0 for ch, where in self.children.values()], default=0)
+
+    def contains_integral(self):
+        return self.kind != 'plain' or any(ch.contains_integral() for ch, _ in self.children.values())
+
+    def has_outside_by_integral(self):
+        """some integral is replaced, from outside, by an array that contains an integral"""
+        return any((where == 'outside' and self.kind != 'plain' and ch.contains_integral()) or ch.has_outside_by_integral() for ch, where in self.children.values())
+
+    def build(self, rng, force_inside=False):
+        g = self.g
+        ins = [(a, ch.build(rng, force_inside)) for a, (ch, where) in self.children.items() if where == 'inside' or force_inside or self.kind == 'plain']
+        outs = [(a, ch.build(rng, force_inside)) for a, (ch, where) in self.children.items() if not (where == 'inside' or force_inside or self.kind == 'plain')]
+        sig = lambda k: self.own[k]
+        if ins:
+            g = function.replace_arguments(g, spell(rng, ins, sig)[1])
+        A = self.finish(g)
+        if outs:
+            A = function.replace_arguments(A, spell(rng, outs, sig)[1])
+        return A
+
+    def describe(self):
+        s = '%s#%d' % (self.kind, self.ident)
+        if self.children:
+            s += '{' + ', '.join('%s:%s %s' % (a, where, ch.describe()) for a, (ch, where) in self.children.items()) + '}'
+        return s
+
+
+def nested_case(rng, tname, topo, geom, depth, p_inside=.75):
+    """random tree of integrals / samples / plain expressions connected by argument replacements, `depth` levels deep"""
+    basis = topo.basis('std', degree=1)
+    n = len(basis)
+    J = function.J(geom)
+    x = geom[0]
+    y = function.field('y', basis); cc = function.Argument('c', (), float)
+    counter = itertools.count()
+    free = {'y': ((n,), float), 'c': ((), float)}
+
+    def domain():
+        kinds = ['integral', 'integral', 'integral', 'boundary', 'sample', 'subtopo']
+        if len(topo.interfaces): kinds.append('interfaces')
+        kind = rng.choice(kinds)
+        degree = rng.choice([1, 2, 3])
+        if kind == 'integral': return kind, lambda h: topo.integral(h * J, degree=degree)
+        if kind == 'boundary': return kind, lambda h: topo.boundary.integral(h * function.J(geom), degree=degree)
+        if kind == 'interfaces': return kind, lambda h: topo.interfaces.integral(h * function.J(geom), degree=degree)
+        if kind == 'subtopo':
+            sub = topo[:max(1, len(topo) - 1)]
+            return kind, lambda h: sub.integral(h * J, degree=degree)
+        smp = topo.sample('gauss', degree)
+        return kind, lambda h: smp.integral(h * J)
+
+    def node(shape, level):
+        i = next(counter)
+        un, wn = 'u%d' % i, 'w%d' % i
+        own = {un: ((n,), float), wn: ((), float)}
+        u = function.field(un, basis); w = function.Argument(wn, (), float)
+        leaf = level >= depth
+        plain = (leaf and rng.random() < .25) or (not leaf and level > 1 and rng.random() < .1)
+        # scalar polynomial in the point: every node uses at least one own argument (non-leaf) so that replacement matters
+        atoms = [u, u, w, x, y, cc, 1.]
+        def term():
+            t = rng.choice([u, u, w])
+            for _ in range(rng.randint(0, 1)):
+                t = t * rng.choice(atoms)
+            return t * rng.choice([1., 2., -.5])
+        if plain:
+            # no integral: an expression of the coefficients themselves
+            U = function.Argument(un, (n,), float)
+            cvec = numpy.random.default_rng(rng.getrandbits(32)).integers(-2, 3, (n,)) / 2.
+            if shape == ():
+                g = rng.choice([lambda: numpy.sum(U * cvec) + w, lambda: numpy.sum(U * U) * .5 - w * cc, lambda: w * w + U[0]])()
+            else:
+                g = rng.choice([lambda: U * w + cvec, lambda: U * U - cvec * w, lambda: U[::-1] * 2. + w * cvec])()
+            nd = Nest(i, g, lambda h: h, 'plain', own)
+        else:
+            s = term()
+            for _ in range(rng.randint(0, 2)):
+                s = s + term()
+            if rng.random() < .3:
+                s = s + (function.grad(u, geom) * function.grad(rng.choice([u, y]), geom)).sum(-1)
+            g = s * basis if shape else s
+            kind, finish = domain()
+            nd = Nest(i, g, finish, kind, own)
+        if not leaf:
+            used = [a for a in (un, wn) if a in nd.g.arguments]
+            rng.shuffle(used)
+            for a in used[:rng.choice([1, 1, 1, 2])]:
+                nd.children[a] = (node(own[a][0], level + 1), 'inside' if rng.random() < p_inside else 'outside')
+        return nd
+
+    top = node(rng.choice([(), (), (n,)]), 1)
+    return top, free
